@@ -46,6 +46,9 @@ type Sim struct {
 
 	hdr     *hdrState // headers-first model of the current node instance
 	everInv bool      // InvalidateBlock was used in this run
+
+	ps                  *poolState
+	reorgSincePoolEmpty bool // a reorganisation happened while the pool was not empty
 }
 
 func btcutilBlock(b *MBlock) *btcutil.Block { return btcutil.NewBlock(b.Msg) }
@@ -304,6 +307,9 @@ func (s *Sim) CheckState(where string) {
 			r.Violate("C02", "no-reorg-without-more-work", key, "tip moved from %v (work %v) to %v (work %v) without strictly more work (%s)", s.prevTip, s.prevTip.Work, tip, tip.Work, where)
 		}
 		s.reorgs++
+		if s.n.Pool != nil && s.n.Pool.Count() > 0 {
+			s.reorgSincePoolEmpty = true
+		}
 		depth := 0
 		for p := s.prevTip; p != nil && !p.IsAncestorOf(tip); p = p.Parent {
 			depth++
@@ -369,6 +375,9 @@ func (s *Sim) CheckState(where string) {
 		r.Violate("C02", "views-agree", "", "ChainTips reports %d active tips", active)
 	}
 	r.State("tipd=%d br=%d orph=%d reorgs=%d inv=%d", tip.Height, len(chain.ChainTips()), s.orphansNow, s.reorgs, s.judgedInv)
+	if s.n.Pool != nil && s.ps != nil && !s.quiet {
+		s.CheckPool(where)
+	}
 }
 
 // CheckUtxoLive compares the node's UTXO answers, spend journals and a block
